@@ -7,6 +7,7 @@ import TinsModel.Wire.Ip.ThFamily
   payload, IHL·4 is the header size (20 + padded options), and the protocol field is the number libtins assigns to the
   inner layer's class.
 -/
+set_option autoImplicit false
 namespace Tins.Wire.Derived
 open Tins Tins.Wire Tins.Wire.Ip
 
